@@ -162,6 +162,10 @@ pub struct RunCfg {
     /// earlier interrupted run has; 0: a fresh state.
     #[serde(default)]
     pub pre_interrupted: u8,
+    /// Single runs only: the run is made on a `clone()` of the built graph (the
+    /// original is dropped first); a clone of a built graph is a built graph.
+    #[serde(default)]
+    pub on_clone: bool,
 }
 
 impl RunCfg {
@@ -501,6 +505,7 @@ pub fn decode_cfg(t: &mut Tape, p: &Profile, n: usize, intr: bool) -> RunCfg {
     if !api.with || matches!(strat, Strat::NonInterruptible) || api.shape == Shape::Stream {
         pre_interrupted = 0;
     }
+    let on_clone = t.chance(1, 10);
     if !api.with {
         rev = false;
         strat = Strat::NonInterruptible;
@@ -523,5 +528,6 @@ pub fn decode_cfg(t: &mut Tape, p: &Profile, n: usize, intr: bool) -> RunCfg {
         coop,
         drop_sender,
         pre_interrupted,
+        on_clone,
     }
 }
